@@ -181,27 +181,57 @@ var viaOther = cors.Config{Origins: []string{"https://via-other.example", "https
 	RequestHeaders: []string{"X-Via-Other", "X-Listed-2", "Authorization"}, MaxAgeInSeconds: 999, ResponseHeaders: []string{"X-Via-Exposed"},
 	ExtraConfig: cors.ExtraConfig{PreflightSuccessStatus: 298}}
 
-// newMiddlewareVia builds a middleware configured with cfg along one of several equivalent histories
-// (DESIGN.md section 9, lesson of seeded change C08-b: state that only a previous Reconfigure leaves behind):
-// 0 NewMiddleware; 1 zero value + Reconfigure; 2 NewMiddleware(other) + SetDebug(true) + Reconfigure(cfg) + SetDebug(false);
-// 3 NewMiddleware(cfg) + Reconfigure(nil) + Reconfigure(cfg).
+// newMiddlewareVia builds a middleware configured with cfg, debug off, along one of several equivalent histories.
 func newMiddlewareVia(cfg cors.Config, via int) (*cors.Middleware, error) {
-	switch via % 4 {
-	case 1:
-		m := new(cors.Middleware)
-		c := cfg
-		return m, m.Reconfigure(&c)
-	case 2:
+	return newMiddlewareViaDbg(cfg, via, false)
+}
+
+// newMiddlewareViaDbg builds a middleware configured with cfg and with debug mode in the given state, along one of
+// several histories the documentation declares equivalent (DESIGN.md section 9; lessons of seeded changes C08-b -
+// state that only a previous Reconfigure leaves behind - and C02-h - debug mode switched on BEFORE the configuration
+// in force was installed and retained across Reconfigure):
+//
+//	0 NewMiddleware(cfg), SetDebug(d)
+//	1 zero value, Reconfigure(cfg), SetDebug(d)
+//	2 NewMiddleware(other), SetDebug(d), Reconfigure(cfg)                       [debug retained]
+//	3 NewMiddleware(cfg), Reconfigure(nil), Reconfigure(cfg), SetDebug(d)
+//	4 NewMiddleware(cfg), SetDebug(d), Reconfigure(cfg)                          [documented no-op reconfiguration]
+//	5 NewMiddleware(cfg), SetDebug(!d), Reconfigure(Config()), SetDebug(d)
+//	6 NewMiddleware(other), SetDebug(true), Reconfigure(cfg), SetDebug(false), SetDebug(d)
+//	7 NewMiddleware(other), SetDebug(d), Reconfigure(cfg), Reconfigure(cfg)      [debug retained twice]
+func newMiddlewareViaDbg(cfg cors.Config, via int, d bool) (*cors.Middleware, error) {
+	if via < 0 {
+		via = -via
+	}
+	other := func() *cors.Middleware {
 		m, err := cors.NewMiddleware(viaOther)
 		if err != nil {
 			panic("viaOther rejected: " + err.Error())
 		}
-		m.SetDebug(true)
+		return m
+	}
+	switch via % 8 {
+	case 1:
+		m := new(cors.Middleware)
 		c := cfg
 		if err := m.Reconfigure(&c); err != nil {
 			return nil, err
 		}
-		m.SetDebug(false)
+		m.SetDebug(d)
+		return m, nil
+	case 2, 7:
+		m := other()
+		m.SetDebug(d)
+		c := cfg
+		if err := m.Reconfigure(&c); err != nil {
+			return nil, err
+		}
+		if via%8 == 7 {
+			c2 := cfg
+			if err := m.Reconfigure(&c2); err != nil {
+				return nil, err
+			}
+		}
 		return m, nil
 	case 3:
 		m, err := cors.NewMiddleware(cfg)
@@ -212,7 +242,48 @@ func newMiddlewareVia(cfg cors.Config, via int) (*cors.Middleware, error) {
 			return nil, err
 		}
 		c := cfg
-		return m, m.Reconfigure(&c)
+		if err := m.Reconfigure(&c); err != nil {
+			return nil, err
+		}
+		m.SetDebug(d)
+		return m, nil
+	case 4:
+		m, err := cors.NewMiddleware(cfg)
+		if err != nil {
+			return nil, err
+		}
+		m.SetDebug(d)
+		c := cfg
+		if err := m.Reconfigure(&c); err != nil {
+			return nil, err
+		}
+		return m, nil
+	case 5:
+		m, err := cors.NewMiddleware(cfg)
+		if err != nil {
+			return nil, err
+		}
+		m.SetDebug(!d)
+		if err := m.Reconfigure(m.Config()); err != nil {
+			return nil, err
+		}
+		m.SetDebug(d)
+		return m, nil
+	case 6:
+		m := other()
+		m.SetDebug(true)
+		c := cfg
+		if err := m.Reconfigure(&c); err != nil {
+			return nil, err
+		}
+		m.SetDebug(false)
+		m.SetDebug(d)
+		return m, nil
 	}
-	return cors.NewMiddleware(cfg)
+	m, err := cors.NewMiddleware(cfg)
+	if err != nil {
+		return nil, err
+	}
+	m.SetDebug(d)
+	return m, nil
 }
